@@ -6,5 +6,5 @@ CONSTANTS
   AsIs_D8 = FALSE
   AsIs_D9 = FALSE
 SPECIFICATION GenSpec
-INVARIANTS TypeOK Bound AllClosedAfterEnd
+INVARIANTS TypeOK Bound AllClosedAfterEnd NoStuckEnd
 CHECK_DEADLOCK FALSE
